@@ -13,9 +13,9 @@ func vh_C13_Verify() {
 	sl := vCase(-1, 8)
 	var sig []byte
 	if sl >= 0 {
-		sig = vBytesCap("sig", vSigLens[sl], vSigLens[sl]+8)
+		sig = vBytesCap("sig", vSigLens[sl], vSigLens[sl]+72)
 	}
-	pk := vBytesCap("pk", kl, kl+3)
+	pk := vBytesCap("pk", kl, kl+40)
 	msg := vBlob("M")
 	p := vCatch(func() { Verify(pk, msg, sig) })
 	vReach("Verify returned or panicked")
@@ -44,7 +44,7 @@ func vh_C13_VerifyWithOptions() {
 func vh_C13_Sign() {
 	vCutSign()
 	pl := vPrivLens[vCase(0, len(vPrivLens)-1)]
-	priv := vBytesCap("priv", pl, pl+4)
+	priv := vBytesCap("priv", pl, pl+72)
 	msg := vBlob("M")
 	p := vCatch(func() { Sign(priv, msg) })
 	vReach("Sign returned or panicked")
@@ -55,7 +55,7 @@ func vh_C13_PrivateKeySign() {
 	vCutSign()
 	pl := vPrivLens[vCase(0, len(vPrivLens)-1)]
 	ml := vDigestLens[vCase(0, 2)]
-	priv := vBytesCap("priv", pl, pl+4)
+	priv := vBytesCap("priv", pl, pl+72)
 	msg := vBytesCap("msg", ml, ml+1)
 	ctx := vBlobString("ctx")
 	hsel := vInt("hash")
@@ -72,7 +72,7 @@ func vh_C13_PrivateKeySign() {
 func vh_C13_NewKeyFromSeed() {
 	vCutSign()
 	sl := vKeyLens[vCase(0, len(vKeyLens)-1)]
-	seed := vBytesCap("seed", sl, sl+5)
+	seed := vBytesCap("seed", sl, sl+48)
 	p := vCatch(func() { NewKeyFromSeed(seed) })
 	vReach("NewKeyFromSeed returned or panicked")
 	vAssert(p == (sl != 32), "NewKeyFromSeed panics exactly when the seed is not 32 bytes")
